@@ -315,12 +315,23 @@ func c17GenTimeBucket(t *rapid.T) c17TimeExpr {
 				}
 			}
 		}
+		// numeric UTC offset (RFC 3339 style). DuckDB decides what the literal
+		// means; whatever the rewrite does with it must give the same buckets.
+		// Keep rows clear of both readings of the origin for the
+		// before-the-origin exclusion.
+		offPad := int64(0)
+		if layout != "2006-01-02" && rapid.IntRange(0, 5).Draw(t, "ooffset") == 0 {
+			off := rapid.SampledFrom([]string{"+05:30", "-08:00", "+02:00", "-00:30", "+01:00", "+00:00", "-03:45", "+14:00"}).Draw(t, "ooffsetv")
+			otxt = strings.TrimSuffix(otxt, "Z") + off
+			offPad = 14 * 3600
+			verifkit.Class("time_bucket:origin-with-utc-offset")
+		}
 		okw := "TIMESTAMP "
 		if rapid.IntRange(0, 11).Draw(t, "okw") == 0 {
 			okw = "" // accepted by Arc's regex; DuckDB itself rejects it (case is then skipped)
 		}
 		args += c17Sp(t) + "," + c17Sp(t) + okw + "'" + otxt + "'" + c17Sp(t)
-		e.Origin, e.HasOrig = osec, true
+		e.Origin, e.HasOrig = osec+offPad, true
 	}
 	e.Text = fn + c17Sp(t) + "(" + args + ")"
 	return e
@@ -697,33 +708,38 @@ func c17GenAtom(t *rapid.T) c17Item {
 // c17GenBool renders a boolean expression: items joined by AND/OR, each item an
 // atom, NOT atom, or a parenthesised sub-expression (optionally negated).
 // topOr reports whether an OR appears at this level (outside parentheses).
-func c17GenBool(t *rapid.T, depth int) (text string, topOr bool, last c17Item, lastConnAnd bool) {
+func c17GenBool(t *rapid.T, depth int, odd bool) (text string, topOr bool, last c17Item, lastConnAnd bool) {
 	n := rapid.IntRange(1, 4).Draw(t, "nitems")
 	var sb strings.Builder
 	for i := 0; i < n; i++ {
-		if i > 0 {
-			if rapid.IntRange(0, 2).Draw(t, "conn") == 0 {
-				sb.WriteString(" " + c17KW(t, "OR") + " ")
-				topOr = true
-				lastConnAnd = false
-			} else {
-				sb.WriteString(" " + c17KW(t, "AND") + " ")
-				lastConnAnd = true
-			}
-		}
 		var it c17Item
 		if depth > 0 && rapid.IntRange(0, 3).Draw(t, "sub") == 0 {
-			inner, _, _, _ := c17GenBool(t, depth-1)
+			inner, _, _, _ := c17GenBool(t, depth-1, odd)
 			it = c17Item{text: "(" + inner + ")"}
 		} else {
 			it = c17GenAtom(t)
 		}
 		if rapid.IntRange(0, 5).Draw(t, "neg") == 0 {
-			if strings.HasPrefix(it.text, "(") {
-				it = c17Item{text: c17KW(t, "NOT") + " " + it.text}
-			} else {
-				it = c17Item{text: c17KW(t, "NOT") + " " + it.text}
+			sep := " "
+			if odd {
+				seps := []string{"\t", "  "}
+				if strings.HasPrefix(it.text, "(") {
+					seps = append(seps, "", "")
+				}
+				sep = rapid.SampledFrom(seps).Draw(t, "notsep")
 			}
+			it = c17Item{text: c17KW(t, "NOT") + sep + it.text}
+		}
+		if i > 0 {
+			kw := "AND"
+			if rapid.IntRange(0, 2).Draw(t, "conn") == 0 {
+				kw = "OR"
+				topOr = true
+				lastConnAnd = false
+			} else {
+				lastConnAnd = true
+			}
+			sb.WriteString(c17Conn(t, kw, odd, sb.String(), it.text))
 		}
 		sb.WriteString(it.text)
 		last = it
@@ -731,10 +747,39 @@ func c17GenBool(t *rapid.T, depth int) (text string, topOr bool, last c17Item, l
 	return sb.String(), topOr, last, lastConnAnd
 }
 
+// c17Conn renders a connector keyword with its surrounding whitespace. In odd
+// mode the keyword is never delimited by a plain blank on both sides: it sits
+// tight against a closing quote / parenthesis, an opening parenthesis, or next
+// to a tab - all of which DuckDB's lexer accepts.
+func c17Conn(t *rapid.T, kw string, odd bool, prev, next string) string {
+	if !odd {
+		return " " + c17KW(t, kw) + " "
+	}
+	lefts := []string{"\t", " ", "  "}
+	if strings.HasSuffix(prev, "'") || strings.HasSuffix(prev, ")") {
+		lefts = append(lefts, "", "")
+	}
+	rights := []string{"\t", " "}
+	if strings.HasPrefix(next, "(") {
+		rights = append(rights, "", "")
+	}
+	l := rapid.SampledFrom(lefts).Draw(t, "connl")
+	r := rapid.SampledFrom(rights).Draw(t, "connr")
+	if l == " " && r == " " {
+		r = "\t"
+	}
+	return l + c17KW(t, kw) + r
+}
+
 // c17GenWhere returns a WHERE body; with forceTail the clause ends in
 // `AND col <> ”`, the shape OptimizeLikePatterns hoists.
 func c17GenWhere(t *rapid.T) string {
-	body, topOr, last, lastAnd := c17GenBool(t, 2)
+	// one statement in four uses tight / tab spacing around AND, OR and NOT
+	odd := rapid.IntRange(0, 3).Draw(t, "oddspacing") == 0
+	if odd {
+		verifkit.Class("like:odd-spacing")
+	}
+	body, topOr, last, lastAnd := c17GenBool(t, 2, odd)
 	if rapid.IntRange(0, 2).Draw(t, "forcetail") > 0 {
 		col := rapid.SampledFrom([]string{"a", "b", "c"}).Draw(t, "tailcol")
 		body += " " + c17KW(t, "AND") + " " + col + rapid.SampledFrom([]string{" <> ''", "<>''", " <>  ''"}).Draw(t, "tailne")
@@ -744,8 +789,9 @@ func c17GenWhere(t *rapid.T) string {
 		// `X OR Y AND c <> ''` : hoisting the trailing check to the front regroups
 		// the OR. Excluded shape: parenthesise everything before the tail instead.
 		verifkit.CountExcluded(c17fLikeOr)
-		idx := strings.LastIndex(strings.ToUpper(body), " AND ")
-		body = "(" + body[:idx] + ")" + body[idx:]
+		if idx := strings.LastIndex(strings.ToUpper(body), " AND "); idx >= 0 {
+			body = "(" + body[:idx] + ")" + body[idx:]
+		}
 	}
 	return body
 }
